@@ -232,7 +232,11 @@ impl Sess {
                         }
                     }
                 }
-                self.finish_ev(b, guard(|| bld.into_inner()))
+                let alt = b % 2 == 1;
+                self.finish_ev(b, guard(|| {
+                    assert_eq!(bld.get_ref().len() as u64, bld.bytes_written(), "get_ref() and bytes_written() disagree");
+                    if alt { Ok(bld.into_fst().into_inner()) } else { bld.into_inner() }
+                }))
             }
             Front::MapInsert => {
                 let mut bld = MapBuilder::memory();
@@ -245,7 +249,11 @@ impl Sess {
                         }
                     }
                 }
-                self.finish_ev(b, guard(|| bld.into_inner()))
+                let alt = b % 2 == 1;
+                self.finish_ev(b, guard(|| {
+                    assert_eq!(bld.get_ref().len() as u64, bld.bytes_written(), "get_ref() and bytes_written() disagree");
+                    if alt { Ok(bld.into_map().into_fst().into_inner()) } else { bld.into_inner() }
+                }))
             }
             Front::SetInsert => {
                 let mut bld = SetBuilder::memory();
@@ -258,7 +266,11 @@ impl Sess {
                         }
                     }
                 }
-                self.finish_ev(b, guard(|| bld.into_inner()))
+                let alt = b % 2 == 1;
+                self.finish_ev(b, guard(|| {
+                    assert_eq!(bld.get_ref().len() as u64, bld.bytes_written(), "get_ref() and bytes_written() disagree");
+                    if alt { Ok(bld.into_set().into_fst().into_inner()) } else { bld.into_inner() }
+                }))
             }
             Front::RawExtendIter | Front::RawExtendStream => {
                 let mut bld = Builder::memory();
@@ -657,6 +669,23 @@ impl Sess {
             let g = raw.stream().into_byte_vec();
             let set = Set::new(&bytes[..]).unwrap();
             let h = set.stream().into_bytes();
+            // the string forms: Ok exactly when every key is UTF-8
+            let utf8 = a.iter().all(|(k, _)| std::str::from_utf8(k).is_ok());
+            let sv = m.stream().into_str_vec();
+            let sk = m.stream().into_str_keys();
+            let rs = raw.stream().into_str_vec();
+            let rk = raw.stream().into_str_keys();
+            let ss = set.stream().into_strs();
+            assert!(sv.is_ok() == utf8 && sk.is_ok() == utf8 && rs.is_ok() == utf8 && rk.is_ok() == utf8 && ss.is_ok() == utf8,
+                    "into_str* is Ok iff every key is UTF-8");
+            if utf8 {
+                let sv: Vec<Kv> = sv.unwrap().into_iter().map(|(k, v)| (k.into_bytes(), v)).collect();
+                let rs: Vec<Kv> = rs.unwrap().into_iter().map(|(k, v)| (k.into_bytes(), v)).collect();
+                let sk: Vec<Vec<u8>> = sk.unwrap().into_iter().map(|k| k.into_bytes()).collect();
+                let rk: Vec<Vec<u8>> = rk.unwrap().into_iter().map(|k| k.into_bytes()).collect();
+                let ss: Vec<Vec<u8>> = ss.unwrap().into_iter().map(|k| k.into_bytes()).collect();
+                assert!(sv == a && rs == g && sk == b && rk == b && ss == h, "into_str* differs from the byte forms");
+            }
             (a, b, c, d, e, g, h)
         });
         match r {
